@@ -128,3 +128,65 @@ HARNESSES.append(
       require=lambda tier: ["compaction_ran"],
       functions=["LSMTree.put/_flush_memtable/_compact/handle_event"],
       bounds=lambda tier: {"writers": 2, "puts each": 3, "second writer start": "symbolic ns [0, 6 ms]", "CompactionTrigger": "symbolic ns [0, 12 ms]"}))
+
+
+# ------------------------------------------------------------------ self-scheduling GC cycle
+_GC_PAUSE_S = [0.0, 0.4, 1.0, 1.2]
+_GC_INTERVAL_S = [0.5, 1.0]
+
+
+def gc_cycle(sym, tier):
+    """GarbageCollector's scheduled cycle (prime() -> collect -> pause -> schedule next) with a strategy
+    whose pause per collection is chosen by the solver from {0, 0.4, 1.0, 1.2} s (shorter than, equal to
+    and longer than the collection interval): no event is stamped before the clock, the cycle never
+    stops by itself and never spins."""
+    from happysimulator.components.infrastructure.garbage_collector import GarbageCollector, GCStrategy
+    from happysimulator.core.simulation import Simulation
+    from happysimulator.core.temporal import Instant
+    from harness.common import Monitor, SpinDetected, mk_event
+    from harness.c16 import _Client
+    r = Result()
+    interval = _GC_INTERVAL_S[sym.choice("interval", len(_GC_INTERVAL_S))]
+    ncol = 4 if tier == "quick" else 5
+    pauses = [_GC_PAUSE_S[sym.choice(f"pause{i}", len(_GC_PAUSE_S))] for i in range(ncol)]
+    calls = [0]
+
+    class Table(GCStrategy):
+        def pause_duration_s(self, heap_pressure):
+            i = calls[0]
+            calls[0] += 1
+            return pauses[i] if i < len(pauses) else 0.1
+
+        def collection_interval_s(self):
+            return interval
+
+        @property
+        def name(self):
+            return "table"
+
+    gc = GarbageCollector("gc", strategy=Table())
+    idle = _Client("idle", lambda s_: None)
+    horizon = sum(pauses) + ncol * interval
+    sim = Simulation(entities=[gc, idle], end_time=Instant.from_seconds(horizon + 0.25))
+    mon = Monitor(sim, cap=40)
+    sim.schedule([gc.prime(), mk_event(int((horizon + 0.2) * 1e9), "keepalive", idle)])
+    try:
+        sim.run()
+    except SpinDetected:
+        pass
+    mon.judge(r, "gc_cycle")
+    if not mon.spun and gc.collection_count < ncol:
+        r.bad("no_event_into_the_past", "gc_cycle", {"collections": gc.collection_count, "expected_at_least": ncol, "pauses_s": pauses, "interval_s": interval,
+                                                     "note": "the self-scheduling cycle stopped (its next event was discarded)"})
+    if any(p > interval for p in pauses):
+        r.wit.add("pause_longer_than_interval")
+    r.obs = {"collections": gc.collection_count}
+    return r
+
+
+HARNESSES.append(H(name="c07_gc_cycle", fn=gc_cycle, shape="S", budget=lambda tier: 600.0,
+                   cubes=lambda tier: [{"interval": a, "pause0": b} for a in range(len(_GC_INTERVAL_S)) for b in range(len(_GC_PAUSE_S))],
+                   require=lambda tier: ["pause_longer_than_interval"],
+                   functions=["GarbageCollector.prime/handle_event/_do_collect/_schedule_next", "GCStrategy (harness-defined table strategy)"],
+                   bounds=lambda tier: {"collections": 4 if tier == "quick" else 5, "pause per collection (s)": _GC_PAUSE_S, "collection interval (s)": _GC_INTERVAL_S},
+                   outside=["the built-in strategies' pressure formulas (floats)"]))
